@@ -25,8 +25,16 @@ import BufModel.Bucket
   Response side.  Contents are strings; file names are arbitrary strings (validated by the
   memory bucket exactly as `storagemem` does, `BufModel.Bucket.memPut/memGet`).  Out
   directories are arbitrary strings, made absolute against a working directory `cwd`
-  (`filepath.Abs`).  `.jar`/`.zip` outs and disk-level failures of the final flush are not
-  modelled (the flush is `storage.Copy` into a `storageos` bucket: C13/C15 territory).
+  (`filepath.Abs`).  Disk-level failures of the final flush are not modelled (the flush is
+  `storage.Copy` into a `storageos` bucket: C13/C15 territory).
+
+  Archive outs (last section).  An out whose ABSOLUTE path ends in `.jar` / `.zip`
+  (`filepath.Ext`) is ONE archive object holding the files of every plugin configured with that
+  archive (`responseWriter.writeZip`): the bucket is keyed by the archive's own absolute path,
+  starts with `META-INF/MANIFEST.MF` for a `.jar`, and is zipped into that path at the flush.
+  `runResponses` (directories only) is kept unchanged; `runResponsesA` is the writer with all
+  three kinds of out and coincides with it when no out is an archive
+  (`BufProofs.C17.archive_model_conservative`).
 -/
 namespace BufModel.Generate
 open BufModel.Path BufModel.Bucket
@@ -351,5 +359,103 @@ def flushed (bs : Buckets) : List (Str × Str × Content) :=
 
 /-- The disk path of a flushed object (`storageos`: `filepath.Join(root, path)`). -/
 def diskPath (o k : Str) : Str := join [o, k]
+
+/-! ## Archive outs (`.jar` / `.zip`): `responseWriter.addResponse` / `writeZip` -/
+
+inductive OutKind where
+  | dir | zip | jar
+  deriving DecidableEq, Repr
+
+/-- `switch filepath.Ext(pluginOut)` on the ABSOLUTE out (case-sensitive; `gen/.zip` is an archive,
+    `a.ZIP` and `a.zip.d` are directories). -/
+def outKind (o : Str) : OutKind :=
+  if extOf o = ".jar".toList then .jar
+  else if extOf o = ".zip".toList then .zip
+  else .dir
+
+/-- `manifestPath` / `manifestContent` of response_writer.go. -/
+def manifestKey : Str := "META-INF/MANIFEST.MF".toList
+def manifestContent : Content := "Manifest-Version: 1.0\nCreated-By: 1.6.0 (protoc)\n\n"
+
+/-- What `os.Stat` reports for a path BEFORE the run (nothing is created on disk before the flush,
+    so this is fixed during `AddResponse`): `true` = directory, `false` = something else; a path
+    that is not listed does not exist. -/
+abbrev FS := List (Str × Bool)
+
+def FS.stat (fs : FS) (p : Str) : Option Bool :=
+  match fs with
+  | [] => none
+  | (k, d) :: rest => if k = p then some d else FS.stat rest p
+
+inductive AErr where
+  | gen (e : GErr)
+  /-- `os.Stat(filepath.Dir(archive))` says "does not exist".  As coded the directory is then
+      created (`createOutDirIfNotExists`) and the stat error is returned all the same. -/
+  | parentMissing
+  /-- "not a directory: %s" -/
+  | parentNotDir
+  deriving DecidableEq, Repr
+
+def AErr.tag : AErr → String
+  | .gen e => e.tag
+  | .parentMissing => "archive-parent-missing"
+  | .parentNotDir => "archive-parent-not-dir"
+
+def liftG {α} : Except GErr α → Except AErr α
+  | .ok a => .ok a
+  | .error e => .error (.gen e)
+
+/-- The bucket a plugin writes into when its out has none yet: empty for a directory; for an
+    archive the parent directory must exist, and a `.jar` starts with its manifest. -/
+def newBucket (fs : FS) (o : Str) : Except AErr Mem :=
+  match outKind o with
+  | .dir => .ok []
+  | k =>
+    match fs.stat (dir o) with
+    | none => .error .parentMissing
+    | some false => .error .parentNotDir
+    | some true =>
+      if k = .jar then liftG (liftP (memPut [] manifestKey manifestContent)) else .ok []
+
+/-- `responseWriter.AddResponse` → `writeDirectory` / `writeZip`: the bucket is keyed by the
+    absolute out itself - for an archive by the ARCHIVE's path, not by its directory. -/
+def addResponseA (fs : FS) (cwd : Str) (bs : Buckets) (p : PluginResp) : Except AErr Buckets :=
+  let o := absPath cwd p.out
+  let start : Except AErr Mem :=
+    match bs.find o with
+    | some m => .ok m
+    | none => newBucket fs o
+  match start with
+  | .error e => .error e
+  | .ok m0 =>
+    match writeResponse m0 p.files with
+    | .error e => .error (.gen e)
+    | .ok m => .ok (bs.set o m)
+
+def addResponsesA (fs : FS) (cwd : Str) : Buckets → List PluginResp → Except AErr Buckets
+  | bs, [] => .ok bs
+  | bs, p :: ps =>
+    match addResponseA fs cwd bs p with
+    | .error e => .error e
+    | .ok bs' => addResponsesA fs cwd bs' ps
+
+/-- `generateCode` with every kind of out. -/
+def runResponsesA (fs : FS) (cwd : Str) (ps : List PluginResp) : Except AErr Buckets :=
+  match validatePluginResponses (dupKey cwd) ps [] with
+  | .error e => .error (.gen e)
+  | .ok _ => addResponsesA fs cwd [] ps
+
+/-- What the flush leaves on disk: a file per object of a directory bucket, ONE archive per
+    archive bucket (also when it holds nothing but the manifest, or nothing at all). -/
+inductive Obj where
+  | file (path : Str) (c : Content)
+  | archive (path : Str) (entries : Mem)
+  deriving Repr
+
+def flushedA (bs : Buckets) : List Obj :=
+  bs.flatMap fun (o, m) =>
+    match outKind o with
+    | .dir => m.map fun (k, c) => Obj.file (diskPath o k) c
+    | _ => [Obj.archive o m]
 
 end BufModel.Generate
